@@ -879,6 +879,8 @@ func checkC04(c *Ctx, r *Report) {
 	}
 	ruleNibbles(c, r, "nibbles")
 	ruleBindEmission(c, r, "bind-emission")
+	// what BIND selects from: the result list holds completed toplevel blocks only, in definition order
+	ruleEndBlock(c, r, "candidates-completed")
 	vm, err := c.vmModel()
 	if err != nil {
 		r.bad("vm", "model", err.Error(), "")
